@@ -1330,3 +1330,202 @@ _reg19h = register
 def register(R):  # noqa: F811
     _reg19h(R)
     register_populations_from_swc(R)
+
+
+# ---------------------------------------------------------------------------
+# Population.map(fn): "returns one result per tree in order".  The process pool enters as an ASSUMED model
+# (pyvc/ext_C19.py: Executor.map(fn, xs) = iterator over [fn(x) for x in xs], xs consumed in the caller, fn pure in workers);
+# the argument plumbing is real code: `(t for t in self.trees)` is the LAZY iterator of the container, consumed by the model
+# through the consumer rule with the invariant below (item j submitted = the j-th tree; cache / read-counter invariant kept).
+X.install_pools()
+APPLY = z3.Function("apply_fn", _I, _I)  # the mapped function (pure: it runs in worker processes on pickled copies)
+
+
+def register_map(R):
+    from pyvc.values import zint
+    from swcgeom.core.population import ChainTrees, Population
+
+    def setup(kind, verbose):
+        def f(S):
+            trees = lazy_obj(S) if kind == "lazy" else chain_obj(S)
+            return dict(self=S.obj(Population, trees=trees, root=""), fn=S.callback("fn", lambda E, a, k: Sym(APPLY(to_z3(a[0], "int")), "oref")),
+                        max_worker=None, verbose=verbose, __ghost__=GHOST)
+
+        return f
+
+    def is_lazy(v):
+        return getattr(v["self"].fields["trees"].cls, "__name__", "") == "LazyLoadingTrees"
+
+    def tree_k(v, j):
+        """the j-th tree of the population: (condition, term)"""
+        t = v["self"].fields["trees"]
+        if is_lazy(v):
+            return z3.BoolVal(True), (lambda x: x == TREE_OF(z3.Select(t.fields["swcs"].cols[0], j)))
+        C, M = t.fields["cumsum"], t.fields["trees"]
+        m = z3.Int(fresh_name("m"))
+        return None, (lambda x: z3.Exists([m], z3.And(m >= 0, m < zint(M.n), z3.Select(C.arr, m) <= j, j < z3.Select(C.arr, m + 1),
+                                                       x == ITEM(z3.Select(M.cols[0], m), j - z3.Select(C.arr, m)))))
+
+    j = z3.Int("j")
+
+    def submitted(E, v, o):
+        xs, k = v["__out__"], to_z3(v["_k"], "int")
+        _, is_tree = tree_k(v, j)
+        return z3.And(zint(xs.n) == k, z3.ForAll([j], z3.Implies(z3.And(j >= 0, j < k), is_tree(z3.Select(xs.cols[0], j)))))
+
+    def lazy_inv(E, v, o):
+        if not is_lazy(v):
+            return True
+        t = v["self"].fields["trees"]
+        k = to_z3(v["_k"], "int")
+        T = t.fields["trees"].cols[0]
+        return E.and_(_all(E, wf_lazy("self.trees") + frame_lazy("self.trees")[:1], v, o), z3.ForAll([j], z3.Implies(z3.And(j >= 0, j < k), z3.Select(T, j) != 0)))
+
+    def chain_inv(E, v, o):
+        return True if is_lazy(v) else _all(E, WF_CHAIN, dict(self=v["self"].fields["trees"]), o)
+
+    RULE = dict(kind="oref", invariant=[("item-j-submitted-is-the-j-th-tree", submitted), ("cache-invariant-and-everything-requested-so-far-is-loaded", lazy_inv), ("chain-well-formed", chain_inv)])
+
+    def results(E, v, o):
+        r = v["result"]
+        if v["verbose"]:
+            res = r if isinstance(r, PList) else None
+        else:
+            res = r.seq if isinstance(r, Iter) and isinstance(r.seq, PList) and not r.consumed else None
+        if res is None or res.items is not None:
+            return False
+        t = v["self"].fields["trees"]
+        n = zint(t.fields["swcs"].n) if is_lazy(v) else z3.Select(t.fields["cumsum"].arr, zint(t.fields["trees"].n))
+        x = z3.Int(fresh_name("x"))
+        _, is_tree = tree_k(v, j)
+        return z3.And(zint(res.n) == n, z3.ForAll([j], z3.Implies(z3.And(j >= 0, j < n), z3.Exists([x], z3.And(is_tree(x), z3.Select(res.cols[0], j) == APPLY(x))))))
+
+    def each_once(E, v, o):
+        return True if not is_lazy(v) else _all(E, wf_lazy("self.trees") + frame_lazy("self.trees")[:2], v, o)
+
+    R.add(f"{POP}:Population.map", prop="C19",
+          variants={"lazy-container": setup("lazy", False), "lazy-container-verbose": setup("lazy", True), "chained-container": setup("chain", False)},
+          requires=[("object-invariant", lambda E, v, o: _all(E, wf_lazy("self.trees"), v) if is_lazy(v) else _all(E, WF_CHAIN, dict(self=v["self"].fields["trees"])))],
+          options=dict(genexp_hook=X.genexp_hook, pool_rule=RULE),
+          ensures=[("one-result-per-tree-in-order:result-k-is-fn-of-the-k-th-tree", results),
+                   ("each-file-read-at-most-once(object-invariant-kept-files-untouched)", each_once)],
+          notes="ASSUMED model of the process pool (see trusted_base); containers: LazyLoadingTrees, ChainTrees; fn an arbitrary pure function")
+
+
+_reg19i = register
+
+
+def register(R):  # noqa: F811
+    _reg19i(R)
+    register_map(R)
+
+
+# ---------------------------------------------------------------------------
+# PopulationTransform.__call__(population): "one result per tree, in order".  The loop `for t in population` consumes the
+# population's LAZY iterator (pyvc.loops: the element is evaluated inside the arbitrary iteration, the cache / read counters are
+# loop state).  Trees are references; their `source` attribute lives in a ghost field heap `sources` (reference -> string
+# reference, contract option ref_attr_hook); the wrapped transform is an arbitrary pure function TF of the tree.
+TPOP = "swcgeom/transforms/population.py"
+TF = z3.Function("transform_of", _I, _I)
+
+
+def _source_heap(E, v, name, val, store):
+    if name != "source":
+        return NotImplemented
+    heap = E.ghost.get("heap:source")
+    if heap is None:
+        return NotImplemented
+    if store:
+        heap.arr = z3.Store(heap.arr, v.z, X.zref(val))
+        return None
+    return X.StrRef(z3.Select(heap.arr, v.z))
+
+
+def register_transform(R):
+    from pyvc.values import Obj, zint
+    from swcgeom.core.population import Population
+    from swcgeom.transforms.population import PopulationTransform
+
+    def tf_model(eng, fn, args, kwargs):
+        eng.assumptions.add("C19-model: the wrapped transform is an arbitrary PURE function of the tree (it touches neither the population nor any `source`)")
+        return Sym(TF(to_z3(args[0], "int")), "oref")
+
+    def setup(S):
+        heap = S.arr("ref", name="source_of")
+        S.eng.ghost["heap:source"] = heap
+        pop = S.obj(Population, trees=lazy_obj(S), root=X.StrRef(S.int("root").z))
+        return dict(self=S.obj(PopulationTransform, transform=Opaque(z3.Int(fresh_name("tf")), {"__call__": tf_model})), population=pop,
+                    sources=heap, given=pop, __ghost__=GHOST)
+
+    EMPTY = X.intern_str("")
+    j, x = z3.Int("j"), z3.Int("x")
+
+    def parts(v, o):
+        lz = v["given"].fields["trees"]
+        return lz.fields["swcs"].cols[0], zint(lz.fields["swcs"].n), lz.fields["trees"].cols[0], v["sources"].arr, o["sources"].arr
+
+    def results_upto(L, v, o, k):
+        S_, n, T, H, H0 = parts(v, o)
+        if L.items is not None:
+            return len(L.items) == 0 and z3.simplify(k == 0)
+        return z3.And(zint(L.n) == k, z3.ForAll([j], z3.Implies(z3.And(j >= 0, j < k), z3.Select(L.cols[0], j) == TF(TREE_OF(z3.Select(S_, j))))))
+
+    def loaded_upto(v, o, k):
+        S_, n, T, H, H0 = parts(v, o)
+        return z3.ForAll([j], z3.Implies(z3.And(j >= 0, j < k), z3.Select(T, j) != 0))
+
+    def sources_kept(v, o):
+        S_, n, T, H, H0 = parts(v, o)
+        return z3.ForAll([x], z3.Implies(z3.Select(H0, x) != EMPTY, z3.Select(H, x) == z3.Select(H0, x)))
+
+    def sources_filled(L, v, o, k):
+        S_, n, T, H, H0 = parts(v, o)
+        if L.items is not None:
+            return True
+        return z3.ForAll([j], z3.Implies(z3.And(j >= 0, j < k), z3.Or(z3.Select(H, z3.Select(L.cols[0], j)) != EMPTY, z3.Select(H0, TREE_OF(z3.Select(S_, j))) == EMPTY)))
+
+    K = lambda v: to_z3(v["_k0"], "int")
+    INV = [("result-j-is-the-transform-of-the-j-th-tree", lambda E, v, o: results_upto(v["trees"], v, o, K(v))),
+           ("object-invariant-files-untouched", lambda E, v, o: _all(E, wf_lazy("given.trees") + frame_lazy("given.trees")[:1], v, o)),
+           ("every-tree-requested-so-far-is-loaded", lambda E, v, o: loaded_upto(v, o, K(v))),
+           ("a-non-empty-source-is-never-overwritten", lambda E, v, o: sources_kept(v, o)),
+           ("every-result-so-far-has-a-source-unless-its-input-had-none", lambda E, v, o: sources_filled(v["trees"], v, o, K(v)))]
+
+    def res_list(v):
+        r = v["result"]
+        if not (isinstance(r, Obj) and r.cls is Population):
+            return None
+        L = r.fields.get("trees")
+        return L if isinstance(L, PList) and L.items is None else None
+
+    def shape(E, v, o):
+        L = res_list(v)
+        return L is not None and L.uid not in E.entry_uids and E.is_same(v["result"].fields.get("root"), o["given"].fields["root"]) is True
+
+    def n_of(v, o):
+        return parts(v, o)[1]
+
+    def input_untouched(E, v, o):
+        g = v["given"]
+        return g.fields["trees"].uid == o["given"].fields["trees"].uid and E.is_same(g.fields["root"], o["given"].fields["root"]) is True and v["population"] is g
+
+    R.add(f"{TPOP}:PopulationTransform.__call__", prop="C19",
+          setup=setup,
+          requires=wf_lazy("population.trees"),
+          options=dict(genexp_hook=X.genexp_hook, ref_attr_hook=_source_heap),
+          loops={0: dict(invariant=INV, types={"trees": "oref"}, modifies=["sources"])},
+          ensures=[("a-new-population-on-a-fresh-list-with-the-same-root", shape),
+                   ("one-result-per-tree-in-order:result-k-is-the-transform-of-the-k-th-tree", lambda E, v, o: False if res_list(v) is None else results_upto(res_list(v), v, o, n_of(v, o))),
+                   ("a-result-that-has-a-source-keeps-it", lambda E, v, o: sources_kept(v, o)),
+                   ("a-result-without-a-source-inherits-its-input's", lambda E, v, o: False if res_list(v) is None else sources_filled(res_list(v), v, o, n_of(v, o))),
+                   ("each-file-read-at-most-once(object-invariant-kept-files-untouched)", lambda E, v, o: _all(E, wf_lazy("given.trees") + frame_lazy("given.trees")[:2], v, o)),
+                   ("input-population-keeps-its-container-and-root", input_untouched)],
+          notes="population on a LazyLoadingTrees; the wrapped transform is an uninterpreted pure function; `source` attributes in a ghost heap")
+
+
+_reg19j = register
+
+
+def register(R):  # noqa: F811
+    _reg19j(R)
+    register_transform(R)
